@@ -47,6 +47,9 @@ impl PieceMoves {
 
     /// Check if it contains a given [`Move`].
     pub fn has(&self, mv: Move) -> bool {
+        if matches!(mv.promotion, Some(Piece::Pawn | Piece::King)) {
+            return false;
+        }
         let has_promotion = mv.promotion.is_some();
         let is_promotion = self.piece == Piece::Pawn &&
             matches!(mv.to.rank(), Rank::First | Rank::Eighth);
